@@ -10,7 +10,7 @@ def describe(tier):
     d = c06.describe(tier)
     d["rule"] = ("same state graph as C06 (%s) -- invariant on EVERY resulting state: validate(True) does not raise; every row-id array is uint32, strictly increasing, "
                  "below the row count; len(coords) == ndim; higher coordinates inside the shape; nothing listed under the common value; no empty entry; abscissae, sparsity "
-                 "and the inferred cube shape equal what the dense model gives." % d["rule"][:200])
+                 "and the inferred cube shape equal what the dense model gives. The same invariants on the results of the entry-wise updates with row ids in seven representations and of every operation on wide / tall indexes (see C06)." % d["rule"][:200])
     return d
 
 
@@ -84,8 +84,17 @@ def construction_family(res, tier):
     return ctx.viol, {"construction_cases": n}
 
 
+def extras(res, tier):
+    from .. import bigops
+
+    v1, c1 = construction_family(res, tier)
+    v2, c2 = bigops.family(res, tier, "C07")
+    c1.update(c2)
+    return v1 + v2, c1
+
+
 def main(tier, all_violations=False, t0=None):
-    return histprop.run(__import__("vf.props.c07", fromlist=["x"]), tier, all_violations, t0, extra=construction_family)
+    return histprop.run(__import__("vf.props.c07", fromlist=["x"]), tier, all_violations, t0, extra=extras)
 
 
 def replay(case, site=None):
